@@ -151,6 +151,7 @@ func cmdCheck(argv []string) int {
 				}
 			}
 		}
+		helperSeen := map[*ssa.Function]bool{}
 		for _, n := range names {
 			if *only != "" && n != *only {
 				continue
@@ -209,6 +210,30 @@ func cmdCheck(argv []string) int {
 			if fc.FreshResult {
 				allObls = append(allObls, eng.freshResultObligations(fn, fc, ctx)...)
 			}
+			// helpers without a contract are verified inlined (symbolic obligations); the data-flow obligations
+			// (ownership of backing arrays, lending of Buffer.Bytes) are generated for their own bodies here
+			var visit func(f *ssa.Function)
+			visit = func(f *ssa.Function) {
+				for _, b := range f.Blocks {
+					for _, in := range b.Instrs {
+						cl, ok := in.(*ssa.Call)
+						if !ok {
+							continue
+						}
+						cal := cl.Call.StaticCallee()
+						if cal == nil || cal.Pkg != ld.SSA || cal.Blocks == nil || eng.isGhostFn(cal) || ld.byFn[cal] != nil || helperSeen[cal] {
+							continue
+						}
+						helperSeen[cal] = true
+						hfc := &FuncContract{Name: cal.Name(), Props: []string{prop}}
+						dctx := &FnCtx{eng: eng, top: cal, fc: hfc}
+						allObls = append(allObls, eng.ownObligations(cal, hfc, dctx)...)
+						allObls = append(allObls, eng.lendObligations(cal, hfc, dctx)...)
+						visit(cal)
+					}
+				}
+			}
+			visit(fn)
 		}
 		// specification functions whose (inductively proved) contracts were used as facts must be verified as well
 		if *only == "" {
